@@ -126,6 +126,45 @@ def day_counts(reporting):
     cover("C10.cover.day_counts.partial_temperature", And(Not(last), nn > 0, nu > 0, Not(temp_ok)))
 
 
+SPAN_CASES = [{"reporting": r, "start": a, "end": b} for r in [False, True] for a in [False, True] for b in [False, True]]
+
+
+@harness("C10.n_days_total", prop="C10", cases=SPAN_CASES, permissive=True)
+def n_days_total(reporting, start, end):
+    """_compute_n_days_total: the span the length criterion judges runs from the first to the last COMPLETE row (usage, temperature and both
+    coverage counts present) -- whole elapsed days between the two instants plus one -- extended by the whole days between a requested start /
+    end and those two rows; rows that are not complete do not stretch it."""
+    data = row_frame(DATA_COLS, label="sufficiency")
+    complete = And(cell_kind(data, "observed") != NAN, cell_kind(data, "temperature") != NAN, cell_kind(data, "temperature_not_null") != NAN,
+                   cell_kind(data, "temperature_null") != NAN)
+    rs = None
+    re_ = None
+    if start:
+        rs = stamp("requested_start")
+    if end:
+        re_ = stamp("requested_end")
+    c = new_object(SC, is_reporting_data=reporting, is_electricity_data=True, n_days_total=None, requested_start=rs, requested_end=re_,
+                   disqualification=fresh_seq("disqualification"), warnings=fresh_seq("warnings"), data=data)
+    c._compute_n_days_total()
+    kept = data.dropna()
+    first = index_min_seconds(kept)
+    last = index_max_seconds(kept)
+    some = Not(index_is_empty(kept))
+    t = label_seconds(data)
+    expect = floor_days(last - first) + 1
+    if start:
+        expect = expect + floor_days(first - stamp_seconds(rs))
+    if end:
+        expect = expect + floor_days(stamp_seconds(re_) - last)
+    check("C10.n_days_total.value", implies(some, c.n_days_total == expect))
+    # the tie to the rows (assumed contract of index.min / index.max, instantiated on the arbitrary row): a complete row lies inside the span,
+    # so the span is at least the whole days from the first complete row to it, plus one
+    check("C10.n_days_total.spans_complete_rows", implies(And(complete, Not(start), Not(end)), c.n_days_total >= floor_days(t - first) + 1))
+    check("C10.n_days_total.frame", And(Not(mutated(c.disqualification)), Not(mutated(c.warnings)), Not(data.mutated)))
+    cover("C10.cover.n_days_total.incomplete_row_outside", And(Not(complete), t > last))
+    cover("C10.cover.n_days_total.year", And(some, last - first == 364 * 86400))
+
+
 @harness("C10.no_data", prop="C10", cases=CASES, permissive=True)
 def no_data(reporting):
     data = row_frame(DATA_COLS, label="sufficiency")
